@@ -445,7 +445,7 @@ CONN_PROJ = {
     "C06": {"wres", "calls", "sent", "pending", "offered"},
     # C11 is judged relationally (c11rel: after-error connection vs a new connection on the same input)
     "C11": {"c11rel", "leak"},
-    "C12": {"files_rel", "leak"},      # relational: judged on the implementation's own completion events
+    "C12": {"files_rel", "files_def", "leak"},      # relational: judged on the implementation's own completion events
     "C13": {"sent", "pending", "wres", "popped"},
 }
 
@@ -926,7 +926,7 @@ def nontrivial_srv(pid, evs):
     if pid == "C10":
         return any(h.get("h") == "refuse" for p in polls for h in p.get("hooks", []))
     if pid == "C18":
-        return any(e["e"] == "kill" for e in evs)
+        return any(e["e"] == "kill" or (e["e"] == "reset" and e.get("prekill")) for e in evs)
     return True
 
 SRV_RULES = {
@@ -992,7 +992,7 @@ def srv_property(pid, tier, seed, models, drivers, assumptions, design_ref, proo
                     continue
                 if pid == "C18":
                     # C18 speaks about polls after the signal; what diverges before it belongs to others
-                    kills = [i for i, e in enumerate(evs) if e["e"] == "kill"]
+                    kills = [i for i, e in enumerate(evs) if e["e"] == "kill" or (e["e"] == "reset" and e.get("prekill"))]
                     if not kills or m.get("step", 0) < kills[0]:
                         oop += 1
                         continue
@@ -1059,7 +1059,7 @@ SRV_ASSUME = [
 ]
 
 TABLE.update({
-    "C07": lambda tier, seed: srv_property("C07", tier, seed, ["srv_quick", "srv_race", "srv_capq"] + (["srv_cap"] if tier == "thorough" else []), [("full", "C07", 300, 3000), ("small", "C07", 300, 3000), ("full", "C07pipe", 200, 2000), ("gen", "Gen_Srv_rogue.cfg", 0, 0), ("genx", "Gen_Srv_exh.cfg", 9, 12), ("genx", "Gen_Srv_exh3.cfg", 0, 10), ("genx", "Gen_Srv_exh11.cfg", 0, 13)], SRV_ASSUME, "DESIGN.md 6 C07", proofs=ABS_PROOF),
+    "C07": lambda tier, seed: srv_property("C07", tier, seed, ["srv_quick", "srv_race", "srv_capq"] + (["srv_cap"] if tier == "thorough" else []), [("full", "C07", 300, 3000), ("small", "C07", 300, 3000), ("full", "C07pipe", 200, 2000), ("full", "C08big", 16, 300), ("gen", "Gen_Srv_rogue.cfg", 0, 0), ("genx", "Gen_Srv_exh.cfg", 9, 12), ("genx", "Gen_Srv_exh3.cfg", 0, 10), ("genx", "Gen_Srv_exh11.cfg", 0, 13)], SRV_ASSUME, "DESIGN.md 6 C07", proofs=ABS_PROOF),
     "C09": lambda tier, seed: srv_property("C09", tier, seed, ["srv_quick", "srv_race", "srv_capq"] + (["srv_cap", "srv_livew"] if tier == "thorough" else []), [("full", "C09", 300, 3000), ("small", "C09", 200, 2000), ("small", "C10", 200, 2000), ("full", "C09slow", 40, 400), ("gen", "Gen_Srv_rogue.cfg", 0, 0), ("genx", "Gen_Srv_exh.cfg", 0, 12), ("genx", "Gen_Srv_exh8.cfg", 0, 14)], SRV_ASSUME, "DESIGN.md 6 C09"),
     "C10": lambda tier, seed: srv_property("C10", tier, seed, ["srv_capq"] + (["srv_cap"] if tier == "thorough" else []), [("small", "C10", 300, 3000), ("full", "C10", 150, 1500)], SRV_ASSUME, "DESIGN.md 6 C10", proofs=ABS_PROOF),
     "C18": lambda tier, seed: srv_property("C18", tier, seed, ["srv_kill"], [("full", "C18", 300, 3000), ("small", "C18", 200, 2000), ("genx", "Gen_Srv_exhkill.cfg", 10, 13)], SRV_ASSUME, "DESIGN.md 6 C18"),
